@@ -302,10 +302,19 @@ def mtb512GenG (LH2 LH1 : Nat → Region → Region → BitVec 64 → Option Reg
         (nlastBV num_cols batch_size))) num_rows
 
 theorem mtb512_generic (fuel : Nat) (tree input : Region) (num_cols num_rows batch_size : BitVec 64) (nThreads : Int)
-    (dim : BitVec 64) :
+    (dim : BitVec 64) (hb : 1 ≤ batch_size.toNat) (hcb : num_cols.toNat + batch_size.toNat < 2 ^ 61) :
     Pos_merkletree_batch_avx512 fuel tree input num_cols num_rows batch_size nThreads dim =
       mtb512GenG Gen.LinearHashGen.Pos_linear_hash_avx512 Gen.LinearHashGen.Pos_linear_hash Gen.PosAvx2.Pos_hash
         fuel tree input num_cols num_rows batch_size dim := by
+  -- the batch count does not wrap (buff0 has 8·nbatches words): the order of the two digest copies to buff0[4j..) and
+  -- buff0[4(nbatches + j)..), j < nbatches, is then immaterial; `gen_equiv` reads the bound from the context
+  have hq : ((num_cols + batch_size - 1#64) / batch_size).toNat < 2 ^ 61 := by
+    have h1 : (1#64 : BitVec 64).toNat = 1 := rfl
+    rw [BitVec.toNat_udiv]
+    refine Nat.lt_of_le_of_lt (Nat.div_le_self _ _) ?_
+    rw [BitVec.toNat_sub, BitVec.toNat_add, h1]
+    omega
+  clear hb hcb
   delta mtb512GenG mtTailG mtb512LeafG mtb512InnerG mtbInnerG mtLevelG mtNodeG nlastBV nbBV
   delta_prefix "Gen.MerkleGen."
   gen_equiv
